@@ -22,7 +22,7 @@ def scaled(sc, a):
     d = json.loads(json.dumps(sc))
     d["thickness"] = [t * a for t in d["thickness"]]
     d["frequency"] = d["frequency"] / a
-    for k in ("corr_length", "radius", "repeat_distance"):
+    for k in ("corr_length", "radius", "repeat_distance", "porod_length"):
         if k in d.get("micro", {}):
             d["micro"][k] = [v * a for v in d["micro"][k]]
     s = d.get("substrate")
@@ -230,6 +230,46 @@ def oracle(ctx, hints, effort):
         if r:
             key = f"{r[0]}:{em}"
             findings.setdefault(key, Finding(key, f"scaled twin (a={a:.3f}) differs: {r[0]}", {"kind": "invariants", "scene": sc, "a": a, "em": em}, r[1], r[2]))
+    # coarse grains at 89 GHz (k*d of a few units, still below lambda/4) with the microstructures that have no slope-at-origin length:
+    # the quadrature of ks is then far from trivial, and every twin must resolve it equally well
+    coarse = [("teubner_strey", lambda: dict(corr_length=[round(float(rng.uniform(3e-4, 5e-4)), 7)], repeat_distance=[round(float(rng.uniform(2e-3, 4e-3)), 6)])),
+              ("unified_scaled_exponential", lambda: dict(porod_length=[round(float(rng.uniform(5e-4, 8e-4)), 7)], polydispersity=1.0)),
+              ("unified_teubner_strey", lambda: dict(porod_length=[round(float(rng.uniform(5e-4, 8e-4)), 7)], polydispersity=0.8)),
+              ("unified_sticky_hard_spheres", lambda: dict(porod_length=[round(float(rng.uniform(5e-4, 8e-4)), 7)], polydispersity=1.2))]
+    for it, (ms, mk_) in enumerate(coarse):
+        sc = const_scene(rng, "exponential", max_layers=1)
+        sc.update(thickness=[0.3], density=[round(float(rng.uniform(250, 350)), 1)], temperature=sc["temperature"][:1], frequency=89e9,
+                  microstructure=ms, micro=mk_(), emmodel="iba")
+        sc.pop("substrate", None)
+        for a in (4.0, 0.25):
+            try:
+                evals += 2
+                r = check_invariants(sc, a, "iba")
+            except Exception as e:  # noqa
+                from smrt.core.error import SMRTError
+                if isinstance(e, (SMRTError, Warning, AssertionError)):
+                    continue
+                raise
+            if r:
+                key = f"{r[0]}:iba:coarse"
+                findings.setdefault(key, Finding(key, f"scaled twin (a={a}) of coarse-grained {ms} snow at 89 GHz differs: {r[0]}",
+                                                 {"kind": "invariants", "scene": sc, "a": a, "em": "iba"}, r[1], r[2]))
+    # a thin ice lens treated as a coherent layer (solver option process_coherent_layers): coherence is decided by k*d, never by d alone
+    for it in range(1 if effort == "routine" else 3):
+        sc = dict(thickness=[0.5, 0.012, 1.0], density=[300.0, 900.0, 350.0], temperature=[255.0, 258.0, 262.0], microstructure="exponential",
+                  frequency=5e9, micro=dict(corr_length=[2e-4, 5e-5, 3e-4]), ice_permittivity=[3.18, 1e-3],
+                  substrate=dict(kind="flat", T=265.0, eps=[6.0, 0.5]), emmodel="iba", nmax=16, solver_options=dict(process_coherent_layers=True))
+        sc["thickness"][1] = round(float(rng.uniform(0.008, 0.014)), 4)
+        for a in (4.0, 0.25):
+            try:
+                evals += 2
+                r = check_twin(sc, a, False)
+            except AssertionError:
+                continue
+            if r:
+                key = f"{r[0]}:coherent-layer"
+                findings.setdefault(key, Finding(key, f"scaled twin (a={a}) of a pack with a thin ice lens, process_coherent_layers=True, differs: {r[0]}",
+                                                 {"scene": sc, "a": a, "active": False}, r[1], r[2]))
     for it in range(2 if effort == "routine" else 8):
         sc = const_scene(rng, "exponential", max_layers=3)
         sc["substrate"] = dict(kind="flat", T=265.0, eps=[6.0, 0.5])
